@@ -3,6 +3,7 @@ import re
 from common import (C, short, field_writers, check_owners, local_refs, accessor_summary,
                     trans_writes, resolve_leaf)
 from cfg import path_leaf
+import cfg as cfgmod
 import shared
 import effects
 
@@ -375,3 +376,136 @@ def run(db, cx):
               short(f.loc),
               why="a call present in only one arm makes results depend on the action-timing option")
     cx.require(db.get(C + "ActionSequence::step"), "anchor ActionSequence::step not found")
+
+    # ------------------------------------------- 8. the host launcher visits every slot
+    host_launcher_all_slots(db, cx, "C06.8-launch-all-slots")
+
+
+RANGE_API = re.compile(r"(CoreState::(get_action_range|has_action_range|action_thread_offsets|"
+                       r"native_action_thread_offsets)|is_action_sorted|TrackInitParams::track_order)$")
+
+
+FILTERED = re.compile(r"ConditionalTrackExecutor<celeritas::(detail::)?(IsStepActionEqual|IsAlongStepActionEqual)\b")
+FULL_RANGE = {C + "CoreState::size", C + "OpaqueId::OpaqueId", C + "range"}
+
+
+def host_launcher_all_slots(db, cx, rule):
+    """The host launchers run the executor on every thread slot [0, state.size()).  Executors that
+    are not filtered by action id (diagnostics, LocateAlive, ProcessSecondaries, ...) rely on it:
+    narrowing the loop to the thread range of one action makes their effect depend on TrackOrder.
+    Narrowing is accepted only where the executor type is filtered by the same action
+    (ConditionalTrackExecutor<IsStepActionEqual|IsAlongStepActionEqual, ...>)."""
+    cores = [f for nm in db.find(r"^celeritas::launch_core$") for f in db.get(nm)]
+    acts = [f for nm in db.find(r"^celeritas::launch_action$") for f in db.get(nm)]
+    cx.floor("host launch_core instantiations", len(cores), 8)
+    cx.floor("host launch_action instantiations", len(acts), 8)
+    seen = set()
+    for f in cores + acts:
+        bad = sorted(set(ev["callee"].split("::")[-1] for (_b, _i, ev) in f.events("call")
+                         if RANGE_API.search(ev["callee"])))
+        filtered = f.name.endswith("launch_action") and bool(FILTERED.search(f.inst))
+        ok = not bad or filtered
+        ex = re.sub(r"^.*?<", "", f.inst)[:90] if bad else ""
+        key = (f.loc, ok, ex)
+        if key in seen:
+            continue
+        seen.add(key)
+        cx.ob(rule, "%s at %s does not narrow the launch by the action ranges of the sort policy%s"
+              % (f.name.split("::")[-1], short(f.loc), (" [" + ex + "]") if ex else ""), ok,
+              ", ".join(bad) or "none", short(f.loc),
+              why="the launcher runs executors that are not filtered by action id; narrowing it to "
+                  "one action's thread range silently skips their tracks under a sorted TrackOrder")
+    nloops = 0
+    done = set()
+    ranged = set()
+    for f in cores:
+        ex = [(b, i, ev) for (b, i, ev) in f.events("call")
+              if ev.get("recv", {}).get("path", {}).get("root", "").startswith("p:")
+              and ev["callee"].endswith("::operator()")
+              and any(c.endswith("OpaqueId::OpaqueId") for a in ev.get("args", []) for c in a.get("calls", []))]
+        if not ex:
+            fw = [ev for (_b, _i, ev) in f.events("call") if ev["callee"] == C + "launch_core"]
+            cx.require(fw, "launch_core %s neither runs nor forwards the executor" % short(f.loc))
+            continue
+        b, i, ev = ex[0]
+        loops = [(h, body) for (h, body) in cfgmod.loops_of(f) if b in body]
+        loops = [(h, body) for (h, body) in loops if f.blocks[h].get("cond", {}).get("op")]
+        cx.require(loops, "launch_core %s: executor call is not inside a counting loop" % short(f.loc))
+        hdr = max(loops, key=lambda hb: len(hb[1]))[0]
+        cond = f.blocks[hdr]["cond"]
+        cx.require(cond.get("op") in ("!=", "<"),
+                   "launch_core %s: loop condition outside the vocabulary: %s" % (short(f.loc), cond.get("t")))
+        idx = ev["args"][0].get("refs", [])
+        var = cond.get("l")
+        rparams = [p["n"] for p in f.r["params"] if "Range<" in p.get("cty", "")]
+
+        def provenance(names, depth=0):
+            """calls and parameter roots the value of the named locals derives from"""
+            calls, roots = [], set()
+            for r in names:
+                if r in [p["n"] for p in f.r["params"]]:
+                    roots.add(r)
+                    continue
+                for d in f.reaching_defs(r, (hdr, 0)):
+                    if d[2].get("kind") == "incdec":
+                        continue
+                    calls.extend(d[2].get("calls", []))
+                    if depth < 3:
+                        c2, r2 = provenance([x for x in d[2].get("refs", []) if x != r], depth + 1)
+                        calls.extend(c2)
+                        roots |= r2
+            return calls, roots
+        inits = [d for d in f.reaching_defs(var, (hdr, 0)) if d[2].get("kind") != "incdec"]
+        steps = [d for d in f.reaching_defs(var, (hdr, 0)) if d[2].get("kind") == "incdec"]
+        step_ok = bool(steps) and all(d[2].get("op") == "++" for d in steps)
+        icalls, iroots = provenance([x for d in inits for x in d[2].get("refs", [])])
+        bcalls, broots = provenance(cond.get("rrefs", []))
+        bcalls = list(cond.get("rcalls", [])) + bcalls
+        nloops += 1
+        if rparams and (iroots | broots) and (iroots | broots) <= set(rparams):
+            # bounds come from a Range<ThreadId> parameter: the obligation moves to the call sites
+            ranged.add(f.r.get("sig", "") or f.loc)
+            init_ok = bound_ok = True
+            what = "bounds from parameter %s" % sorted(iroots | broots)
+        else:
+            init_ok = bool(inits) and all(d[2].get("lit") == "0" for d in inits)
+            bound_ok = bool(bcalls) and all(c == C + "CoreState::size" for c in bcalls) \
+                and broots <= {"state"}
+            what = "init=%s bound=%s <- %s" % ([d[2].get("rhs") for d in inits], cond.get("r"),
+                                             sorted(set(c.split("::")[-1] for c in bcalls)) + sorted(broots))
+        key = (f.loc, init_ok, bound_ok, step_ok, var in idx)
+        if key in done:
+            continue
+        done.add(key)
+        cx.ob(rule, "launch_core at %s: executor loop runs %s over [0, state.size()) or over its "
+              "range parameter, in steps of one" % (short(f.loc), var), init_ok and bound_ok and step_ok,
+              what + " step=%s" % [d[2].get("op") for d in steps], short(f.loc),
+              why="every slot must be visited whatever the track order: the bound is the state size "
+                  "and nothing else")
+        cx.ob(rule, "launch_core at %s: the executor receives ThreadId{%s}" % (short(f.loc), var),
+              var in idx, ev["args"][0].get("t", ""), short(ev["loc"]),
+              why="the loop index is the thread id: an offset or remapped id visits the wrong slots")
+    cx.floor("host launch_core executor loops", nloops, 8)
+    # call sites of a ranged overload: the whole range, or an action range with a filtered executor
+    if ranged:
+        done = set()
+        for f, ev in db.callers_of(C + "launch_core"):
+            rargs = [a for a in ev.get("args", []) if set(a.get("calls", [])) & (FULL_RANGE | {C + "CoreState::get_action_range"})
+                     or "Range<" in a.get("ty", "")]
+            if "Range<" not in ev.get("sig", ""):
+                continue
+            calls = set(c for a in ev["args"] for c in a.get("calls", [])) - {"std::forward", C + "ActionInterface::label",
+                                                                               C + "ActionInterface::action_id"}
+            full = calls <= FULL_RANGE and C + "CoreState::size" in calls
+            narrowed_ok = C + "CoreState::get_action_range" in calls and bool(FILTERED.search(f.inst))
+            key = (ev["loc"], full or narrowed_ok)
+            if key in done:
+                continue
+            done.add(key)
+            cx.ob(rule, "ranged launch_core call at %s passes every slot, or one action's range "
+                  "with an executor filtered by that action" % short(ev["loc"]), full or narrowed_ok,
+                  "range argument calls %s; executor %s" % (sorted(c.split("::")[-1] for c in calls),
+                                                          re.sub(r"^.*?<", "", f.inst)[:80]),
+                  short(ev["loc"]),
+                  why="an unfiltered executor launched over one action's thread range skips tracks "
+                      "under a sorted TrackOrder")
